@@ -46,10 +46,13 @@ fn small_dataset(r: &mut Rng, ops: &mut Vec<Vec<Tok>>, with_past: bool) {
     }
 }
 
-fn sweep_op(r: &mut Rng, thorough: bool) -> Vec<Tok> {
-    // absolute replacement values and xor masks applied at every position
+fn sweep_op(r: &mut Rng, thorough: bool, exhaustive: bool) -> Vec<Tok> {
+    // absolute replacement values and xor masks applied at every position; [exhaustive]: all 255
+    // other values of every byte (the first 16 files of the thorough tier)
     let abs: Vec<i64> = if thorough { vec![0, 255, 128, 252, 253, 254, 250, 251, 1, 5, 64, 192] } else { vec![0, 255, 128, 252, 253, 1, 64, 192] };
-    let xors: Vec<i64> = if thorough { (1..=255).collect() } else { vec![1, 2, 0x80, 1 + r.below(255) as i64] };
+    let xors: Vec<i64> = if exhaustive { (1..=255).collect() }
+        else if thorough { let mut v = vec![1, 2, 4, 8, 16, 32, 64, 128]; for _ in 0..8 { v.push(1 + r.below(255) as i64); } v }
+        else { vec![1, 2, 0x80, 1 + r.below(255) as i64] };
     let mut o = opv("SWEEP", vec![i(0), i(0), i(abs.len() as i64)]);
     for a in abs { o.push(i(a)); }
     o.push(i(xors.len() as i64));
@@ -154,7 +157,7 @@ pub fn gen(seed: u64, n: usize, tier: &str) -> Vec<Case> {
         let by_model = k % 2 == 1;
         small_dataset(&mut r, &mut ops, by_model);
         if by_model { ops.push(opv("MSAVE", vec![Tok::I(FAR)])); } else { ops.push(op_t("ISAVE")); }
-        ops.push(sweep_op(&mut r, thorough));
+        ops.push(sweep_op(&mut r, thorough, thorough && k < 16));
         ops.push(op_t("RELOAD")); ops.push(op_t("DUMP"));
         cases.push(Case { id: format!("sweep-{}-{}", if by_model { "model" } else { "impl" }, k), ops, outs: vec![] });
         k += 1;
